@@ -178,6 +178,13 @@ def make_model_class():
                 while sim.run_state != RunState.STOPPING and n < 10000:
                     coop_sleep(0.0001)
                     n += 1
+            if f == "stoppre":
+                # the handler asks for a pause itself and then fails
+                try:
+                    sim.stop()
+                except Exception:  # noqa  (e.g. stepping: already stopped)
+                    pass
+                raise Fault("stoppre %r" % (tag,))
             if f == "pre":
                 raise Fault("pre %r" % (tag,))
             self.do(tag)
@@ -316,7 +323,7 @@ class Ref:
             return "W"
         self.trace.append((float(self.clock), e[3]))
         f = self.faults.get(e[3])
-        if f != "pre":
+        if f not in ("pre", "stoppre"):
             self.do(e[3])
         return e[3]
 
@@ -471,6 +478,8 @@ class RefSim:
                 self.pause_on_fault = self.switch[tag]
             if self.pause_on_fault and tag in self.faults:
                 paused = True
+            if self.faults.get(tag) == "stoppre":
+                paused = True     # its own stop() holds under any strategy
             if paused:
                 break
         if paused:
